@@ -300,52 +300,63 @@ def codeOp (codes : List Code) (i : Nat) (len : Code → Nat) (x : Bits) (f : Co
   | none => .err "no-such-code"
   | some C => if x.length != len C then .err "AssertionError" else f C
 
+/-- `CRC8/9/16/32.CALC.calculate_checksum` -/
+def stepCrcShared (s : S) (k : Nat) (data : Bits) (little : Bool) : S × Out × Call :=
+  match sharedCfgs[k]? with
+  | none => (s, .err "no-such-calculator", .crcShared k data little)
+  | some (cfg, table) =>
+    -- the register holds a reference to the cached table object
+    let tbl := if table then (s.tableCache.find? (fun e => e.1 == (cfg.width, cfg.poly))).map (·.2) else none
+    if table && tbl.isNone then (s, .err "table-missing", .crcShared k data little) else
+    let r := crcRun cfg tbl little data        -- init() first: the old register is not read
+    ({ s with sharedRegs := s.sharedRegs.set k r.1 }, .bits r.2, .crcShared k data little)
+
+/-- `BitCrcCalculator(cfg, table_based).calculate_checksum` on a new calculator -/
+def stepCrcNew (s : S) (cfg : CrcCfg) (table : Bool) (data : Bits) (little : Bool) : S × Out × Call :=
+  if table then
+    ({ s with tableCache := (cachedTable s.tableCache cfg.width cfg.poly).2 },
+      .bits (crcRun cfg (some (cachedTable s.tableCache cfg.width cfg.poly).1) little data).2, .crcNew cfg table data little)
+  else (s, .bits (crcRun cfg none little data).2, .crcNew cfg table data little)
+
+/-- the same on a calculator the caller keeps: created on first use (the table register looks the table up in the
+cache), afterwards only its register changes -/
+def stepCrcKept (s : S) (cfg : CrcCfg) (table : Bool) (data : Bits) (little : Bool) : S × Out × Call :=
+  let known := s.kept.any (fun e => e.1 == cfg && e.2.1 == table)
+  let t := if table then some (cachedTable s.tableCache cfg.width cfg.poly).1 else none
+  let cache := if table && !known then (cachedTable s.tableCache cfg.width cfg.poly).2 else s.tableCache
+  let r := crcRun cfg t little data
+  let kept := if known then s.kept.map (fun e => if e.1 == cfg && e.2.1 == table then (cfg, table, r.1) else e)
+              else (cfg, table, r.1) :: s.kept
+  ({ s with tableCache := cache, kept := kept }, .bits r.2, .crcKept cfg table data little)
+
+/-- `check_and_correct`: the argument buffer IS the returned buffer -/
+def stepHamCac (s : S) (i : Nat) (w : Bits) : S × Out × Call :=
+  if i ≥ 5 then (s, .err "no-such-code", .hamCac i w) else
+  match codeOp s.codes i (·.n) w (fun C => .flagBits (C.checkAndCorrect w).1 (C.checkAndCorrect w).2) with
+  | .flagBits ok b => (s, .flagBits ok b, .hamCac i b)
+  | o => (s, o, .hamCac i w)
+
 /-- one call on the state, mirroring what the Python reads and writes -/
 def step (s : S) : Call → S × Out × Call
-  | c@(.crcShared k data little) =>
-    match sharedCfgs[k]? with
-    | none => (s, .err "no-such-calculator", c)
-    | some (cfg, table) =>
-      -- the register holds a reference to the cached table object
-      let tbl := if table then (s.tableCache.find? (fun e => e.1 == (cfg.width, cfg.poly))).map (·.2) else none
-      if table && tbl.isNone then (s, .err "table-missing", c) else
-      let r := crcRun cfg tbl little data        -- init() first: the old register is not read
-      ({ s with sharedRegs := s.sharedRegs.set k r.1 }, .bits r.2, c)
-  | c@(.crcNew cfg table data little) =>
-    if table then
-      let (t, cache) := cachedTable s.tableCache cfg.width cfg.poly
-      ({ s with tableCache := cache }, .bits (crcRun cfg (some t) little data).2, c)
-    else (s, .bits (crcRun cfg none little data).2, c)
-  | c@(.crcKept cfg table data little) =>
-    -- created on first use (the table register looks the table up in the cache), afterwards only its register changes
-    let known := s.kept.any (fun e => e.1 == cfg && e.2.1 == table)
-    let (t, cache) := if table then
-        (let p := cachedTable s.tableCache cfg.width cfg.poly; (some p.1, if known then s.tableCache else p.2))
-      else (none, s.tableCache)
-    let r := crcRun cfg t little data
-    let kept := if known then s.kept.map (fun e => if e.1 == cfg && e.2.1 == table then (cfg, table, r.1) else e)
-                else (cfg, table, r.1) :: s.kept
-    ({ s with tableCache := cache, kept := kept }, .bits r.2, c)
-  | c@(.hamGenerate i m) => (s, codeOp s.codes i (·.k) m (fun C => .bits (C.gen m)), c)
-  | c@(.hamCheck i w) => (s, codeOp s.codes i (·.n) w (fun C => .flag (C.check w)), c)
-  | c@(.hamCac i w) =>
-    if i ≥ 5 then (s, .err "no-such-code", c) else
-    match codeOp s.codes i (·.n) w (fun C => let r := C.checkAndCorrect w; .flagBits r.1 r.2) with
-    | .flagBits ok b => (s, .flagBits ok b, .hamCac i b)     -- the argument buffer IS the returned buffer
-    | o => (s, o, c)
-  | c@(.fiveBit data) => (s, fiveBit data, c)
-  | c@(.byteswap data) => (s, .bytes (byteswap data), c)     -- works on a private copy (2d27283)
-  | c@(.burstDefault) => (s, .bits s.burstBits, c)
-  | c@(.csbkDefault) => (s, .pairBits (s.csbkParams.take 14) ((s.csbkParams.drop 14).take 24), c)
-  | c@(.dhDefault) => (s, .bits s.dhPadding, c)
-  | c@(.soDefault) => (s, .bits (s.soReserved.take 2), c)
-  | c@(.rcpDefault) => (s, .bytes (rcpPayload s.rcpSettings), c)
-  | c@(.getToken req name attrs) =>
+  | .crcShared k data little => stepCrcShared s k data little
+  | .crcNew cfg table data little => stepCrcNew s cfg table data little
+  | .crcKept cfg table data little => stepCrcKept s cfg table data little
+  | .hamGenerate i m => (s, codeOp s.codes i (·.k) m (fun C => .bits (C.gen m)), .hamGenerate i m)
+  | .hamCheck i w => (s, codeOp s.codes i (·.n) w (fun C => .flag (C.check w)), .hamCheck i w)
+  | .hamCac i w => stepHamCac s i w
+  | .fiveBit data => (s, fiveBit data, .fiveBit data)
+  | .byteswap data => (s, .bytes (byteswap data), .byteswap data)     -- works on a private copy (2d27283)
+  | .burstDefault => (s, .bits s.burstBits, .burstDefault)
+  | .csbkDefault => (s, .pairBits (s.csbkParams.take 14) ((s.csbkParams.drop 14).take 24), .csbkDefault)
+  | .dhDefault => (s, .bits s.dhPadding, .dhDefault)
+  | .soDefault => (s, .bits (s.soReserved.take 2), .soDefault)
+  | .rcpDefault => (s, .bytes (rcpPayload s.rcpSettings), .rcpDefault)
+  | .getToken req name attrs =>
     -- the token is a copy whose attribute list is copied as well (d571898): the tables are only read
-    (s, .tok (getTokenAux s.attrDefs name attrs (if req then s.tokReq else s.tokAns) 0).1, c)
-  | c@(.tmsAsBytes more ack res ctl ty body) =>
+    (s, .tok (getTokenAux s.attrDefs name attrs (if req then s.tokReq else s.tokAns) 0).1, .getToken req name attrs)
+  | .tmsAsBytes more ack res ctl ty body =>
     -- `self.header.set_has_more_headers(more)` overwrites the flag with a value computed from the other fields
-    ({ s with tmsFlag := more }, .bytes (tmsBytes more ack res ctl ty body), c)
+    ({ s with tmsFlag := more }, .bytes (tmsBytes more ack res ctl ty body), .tmsAsBytes more ack res ctl ty body)
 
 /-! ## the history-free functions: no `S` anywhere -/
 
@@ -360,7 +371,7 @@ def pureOut : Call → Out
     .bits (crcRun cfg (if table then some (mkTable cfg.width cfg.poly) else none) little data).2
   | .hamGenerate i m => codeOp theCodes i (·.k) m (fun C => .bits (C.gen m))
   | .hamCheck i w => codeOp theCodes i (·.n) w (fun C => .flag (C.check w))
-  | .hamCac i w => if i ≥ 5 then .err "no-such-code" else codeOp theCodes i (·.n) w (fun C => let r := C.checkAndCorrect w; .flagBits r.1 r.2)
+  | .hamCac i w => if i ≥ 5 then .err "no-such-code" else codeOp theCodes i (·.n) w (fun C => .flagBits (C.checkAndCorrect w).1 (C.checkAndCorrect w).2)
   | .fiveBit data => fiveBit data
   | .byteswap data => .bytes (byteswap data)
   | .burstDefault => .bits Gen.PurityInit.burstDefaultBits
@@ -375,7 +386,7 @@ def pureOut : Call → Out
 def argsAfter : Call → Call
   | .hamCac i w =>
     if i ≥ 5 then .hamCac i w else
-    match codeOp theCodes i (·.n) w (fun C => let r := C.checkAndCorrect w; .flagBits r.1 r.2) with
+    match codeOp theCodes i (·.n) w (fun C => .flagBits (C.checkAndCorrect w).1 (C.checkAndCorrect w).2) with
     | .flagBits _ b => .hamCac i b
     | _ => .hamCac i w
   | c => c
@@ -407,13 +418,13 @@ def invB (s : S) : Bool :=
 `update` byte-reverses the caller's buffer (before a980052) and `byteswap_bytearray` swaps an even-length argument in place
 (before 2d27283) -/
 def stepBuggy (s : S) : Call → S × Out × Call
-  | c@(.getToken req name attrs) =>
+  | .getToken req name attrs =>
     let toks := if req then s.tokReq else s.tokAns
     let r := getTokenAux s.attrDefs name attrs toks 0
     let toks' := match r.2 with
       | some (i, as) => toks.modify i (fun d => { d with attrs := as })
       | none => toks
-    ((if req then { s with tokReq := toks' } else { s with tokAns := toks' }), .tok r.1, c)
+    ((if req then { s with tokReq := toks' } else { s with tokAns := toks' }), .tok r.1, .getToken req name attrs)
   | .crcNew cfg table data little =>
     let r := step s (.crcNew cfg table data little)
     (r.1, r.2.1, .crcNew cfg table (fedBits cfg data) little)
